@@ -70,13 +70,22 @@ def leaves_of(t):
     return [l for x in t[1:] if isinstance(x, tuple) for l in leaves_of(x)]
 
 
+def elided_ref_directly_in_tuple(t):
+    if t[0] == "tup":
+        return any(x == ("ref", "e", "C") or elided_ref_directly_in_tuple(x) for x in t[1])
+    return any(elided_ref_directly_in_tuple(x) for x in t[1:] if isinstance(x, tuple))
+
+
 def lt_variants(infos, limit):
     """for accepted types in which the cloneable leaf C occurs only behind elided references: the same type with `&W<'_>` in its place -
     a leaf type that carries a lifetime parameter of its own (anonymous `'_` inside a path type).  The borrow is still a borrow of self."""
     out = []
     for i in infos:
         ls = leaves_of(i["ty"])
+        # (a tuple with `&W<'_>` as a direct element does not compile on the unchanged tree - E0637 "`'_` cannot be used here" in the
+        # generated kind type: loud, not a wrong value; recorded in DESIGN.md section 14 among the limitations outside the properties)
         if i["accept"] and not i.get("named") and not i.get("param") and any(l == ("ref", "e", "C") for l in ls) and \
+                not elided_ref_directly_in_tuple(i["ty"]) and \
                 not any(l in (("own", "C"), ("ref", "s", "C")) or l[-1] == "Sl" for l in ls) and len(out) < limit:
             out.append(dict(i, rust=rust_ty(i["ty"], lt=True), lt=True))
     return out
